@@ -109,8 +109,9 @@ _X86_REGS = {
 _A64_LANES = {"b": ["16", "8", ""], "h": ["8", "4", ""], "s": ["4", "2", ""], "d": ["2", "1", ""]}
 
 
-def render(isa, kind, rnd=FIRST, first=True):
-    """assembly text of one written operand of the given kind (`first`: operand position 1)."""
+def render(isa, kind, rnd=FIRST, first=True, last=False):
+    """assembly text of one written operand of the given kind (`first`: operand position 1, `last`:
+    final position - an AArch64 integer immediate may carry a shift there: `#1, lsl #12`)."""
     k = kind["k"]
     if isa == "x86":
         if k == "reg":
@@ -168,6 +169,8 @@ def render(isa, kind, rnd=FIRST, first=True):
             return "p%s.%s" % (n, s)
         raise ValueError("no AArch64 register of kind %s" % kstr(kind))
     if k == "imm":
+        if kind["t"] == "int" and last and rnd.random() < 0.25:
+            return rnd.choice(["#1, lsl #12", "#42, lsl #12", "#3, lsl 12"])
         return {"int": rnd.choice(["#42", "42", "#0x10", "#-1", "#0"]),
                 "float": rnd.choice(["#1.5f", "#2.0e+1f"]),
                 "double": rnd.choice(["#1.5", "#2.0e+1", "#0.5"])}[kind["t"]]
@@ -217,7 +220,7 @@ def render_name(chars):
 
 
 def render_line(isa, name, kinds, rnd=FIRST):
-    ops = [render(isa, kd, rnd, first=(j == 0)) for j, kd in enumerate(kinds)]
+    ops = [render(isa, kd, rnd, first=(j == 0), last=(j == len(kinds) - 1)) for j, kd in enumerate(kinds)]
     return (name + " " + ", ".join(ops)).strip()
 
 
